@@ -78,7 +78,13 @@ HeapMax == {Case("heapmax", Blob(0, 1, 65535, 0, 0), Arg(0, 7))}
            \cup (IF Tier = "thorough" THEN {Case("heapmax", Blob(0, 4097, 65534, 0, 0), Arg(0, 7)), Case("heapmax", Blob(1, 0, 65535, 1, 0), Arg(1, 7)),
                                             Case("heapmax", Blob(0, 4096, 65535, 0, 0), Arg(0, 7))} ELSE {})
 
-Cases == HeapMax \cup Valid \cup Shaped \cup MalCut \cup MalTrail \cup MalField \cup Big \cup Args
+\* the largest arguments of Y's domain (a is at most Z_I bytes): Z_I - 1 and Z_I, in every tier
+\* (pattern head and tail, zeros in between: the projection stays small - two data pages, one zero run, two data pages)
+EdgeArg(al) == <<PatSeg(Sd(al, 1, 8), 4101), ZeroSeg(al - 8202), PatSeg(Sd(al, 2, 8), 4101)>>
+ArgMax == {Case("argmax", Blob(0, 0, 0, 0, 0), EdgeArg(al)) : al \in {16777215, 16777216}}
+          \cup (IF Tier = "thorough" THEN {Case("argmax", Blob(1, 4097, 1, 1, 0), EdgeArg(al)) : al \in {16773120, 16777215, 16777216}} ELSE {})
+
+Cases == HeapMax \cup ArgMax \cup Valid \cup Shaped \cup MalCut \cup MalTrail \cup MalField \cup Big \cup Args
 ASSUME ndJsonSerialize(OutFile, SetToSeq(Cases))
 ASSUME PrintT(<<"GEN", Cardinality(Cases), Cardinality(Valid)>>)
 GenInit == x = 0
